@@ -304,10 +304,11 @@ func ruleR12(p *Prog) []Ob {
 		sites := p.reachMutators(root, assume)
 		allowed := 0
 		for _, ms := range sites {
-			if funcPkgPath(ms.fn) == pkgIndex {
+			if funcPkgPath(ms.fn) == pkgIndex && !allowTarget {
 				allowed++ // index files are derived data (paths checked above)
 				continue
 			}
+			// a backup leaves the source unchanged: not even a missing index is built there
 			if allowTarget && len(ms.paths) > 0 {
 				all := true
 				for _, pv := range ms.paths {
